@@ -219,7 +219,9 @@ def check_renderer(ctx, cname, rules=("DIMGUARD", "DIST", "SHARP", "SMOOTH", "WI
         for N in (True, False):
             w_here = f"{grid_p}.typical_discretization" if N else "self.interface_width"
             for Z in (True, False):
-                for B in (True, False):
+                # B: a boolean image is requested — as the builtin `bool` (what refine_droplet passes), as np.bool_ or as np.dtype(bool);
+                # each spelling is a case of its own, because hand-written dtype tests tell them apart
+                for B, spelling in ((True, "builtin"), (True, "np.bool_"), (True, "np.dtype"), (False, "float")):
                     kinds = set()
                     for dec, kind, *_ in paths:
                         consistent = True
@@ -248,6 +250,16 @@ def check_renderer(ctx, cname, rules=("DIMGUARD", "DIST", "SHARP", "SMOOTH", "WI
                             for w_ in WTXT:
                                 t2 = t2.replace(f"{w_} == 0", "ZZ" if w_ == w_here else "ZOTHER").replace(f"{w_} != 0", "(not ZZ)" if w_ == w_here else "ZOTHER")
                             t2 = t2.replace(f"np.issubdtype({dtype_p}, bool)", "BB").replace(f"numpy.issubdtype({dtype_p}, bool)", "BB")
+                            # numpy semantics of the other ways to ask "is this the boolean type" (per spelling of the request)
+                            DT = {"builtin": {"eq_npbool": False, "eq_bool": True, "is_bool": True},
+                                  "np.bool_": {"eq_npbool": True, "eq_bool": False, "is_bool": False},
+                                  "np.dtype": {"eq_npbool": True, "eq_bool": True, "is_bool": False},
+                                  "float": {"eq_npbool": False, "eq_bool": False, "is_bool": False}}[spelling]
+                            for pat_, key_ in ((f"{dtype_p} == np.bool_", "eq_npbool"), (f"np.bool_ == {dtype_p}", "eq_npbool"), (f"{dtype_p} == bool", "eq_bool"), (f"bool == {dtype_p}", "eq_bool"),
+                                               (f"{dtype_p} is bool", "is_bool"), (f"{dtype_p} is np.bool_", "eq_npbool" if spelling == "np.bool_" else "is_never")):
+                                t2 = t2.replace(pat_, str(DT.get(key_, False)))
+                            for pat_ in (f"np.dtype({dtype_p}) == bool", f"np.dtype({dtype_p}) == np.bool_", f"np.dtype({dtype_p}).kind == 'b'"):
+                                t2 = t2.replace(pat_, "BB")
                             if "ZOTHER" in t2:
                                 consistent = False  # path taken with the other width source
                                 break
@@ -268,7 +280,7 @@ def check_renderer(ctx, cname, rules=("DIMGUARD", "DIST", "SHARP", "SMOOTH", "WI
         else:
             ctx.decide(table_ok, "WIDTH", site + ":sharp-branch", (fi, sharp[0][5]) if sharp else fi,
                        "indicator used exactly for width 0 or boolean images (truth table over width unset / width 0 / boolean dtype)",
-                       "the sharp image is not selected exactly when the width is 0 or a boolean image is requested" + (f": (unset={bad_case[0]}, zero={bad_case[1]}, bool={bad_case[2]}) gives {bad_case[3]}" if not table_ok else ""))
+                       "the sharp image is not selected exactly when the width is 0 or a boolean image is requested" + (f": (unset={bad_case[0]}, zero={bad_case[1]}, bool={bad_case[2]}) gives {bad_case[3]} (a boolean image may be requested as the builtin bool — refine_droplet does — as np.bool_ or as a dtype object)" if not table_ok else ""))
     # ---- CAST
     if "CAST" in rules:
         bad = [p_ for p_ in paths if not p_[4]]
